@@ -77,6 +77,16 @@ def _deep(v):
     return deep
 
 
+def _shapes(v):
+    def shapes(x):
+        trace.enter("shapes", x)
+        # results whose lazy parts sit inside every kind of nested value the scheduler evaluates: dataclass fields,
+        # namedtuple fields, dict values, tuples, lists
+        from vlib import wf_tasks as W
+        return W.DC(T["leafA"](x), [W.NT(T["mid"](x), (T["leafB"](x), [0, 4, 8][v])), {"k": T["leafA"](x + 1)}])
+    return shapes
+
+
 def _maybe_fail(v):
     def maybe_fail(x):
         trace.enter("maybe_fail", x)
@@ -149,13 +159,13 @@ def _nestfile(v):
     return nestfile
 
 
-BODY = {"cat2": _cat2, "nestfile": _nestfile, "leafA": _leafA, "leafB": _leafB, "plus": _plus, "mid": _mid, "top": _top, "deep": _deep,
+BODY = {"shapes": _shapes, "cat2": _cat2, "nestfile": _nestfile, "leafA": _leafA, "leafB": _leafB, "plus": _plus, "mid": _mid, "top": _top, "deep": _deep,
         "maybe_fail": _maybe_fail, "recover": _recover, "guarded": _guarded, "failing_parent": _failing_parent,
         "readf": _readf, "writef": _writef, "pipeline": _pipeline}
-NVARIANTS = {"cat2": 3, "nestfile": 2, "leafA": 3, "leafB": 3, "plus": 3, "mid": 3, "top": 3, "deep": 3, "maybe_fail": 3, "recover": 3,
+NVARIANTS = {"shapes": 3, "cat2": 3, "nestfile": 2, "leafA": 3, "leafB": 3, "plus": 3, "mid": 3, "top": 3, "deep": 3, "maybe_fail": 3, "recover": 3,
              "guarded": 2, "failing_parent": 2, "readf": 3, "writef": 3, "pipeline": 3}
 # who can run beneath whom (for aiming subtree edits)
-SUBTREE = {"nestfile": ["cat2", "readf", "leafA"], "mid": ["leafA", "plus"], "top": ["mid", "leafA", "leafB", "plus"],
+SUBTREE = {"shapes": ["leafA", "leafB", "mid", "plus"], "nestfile": ["cat2", "readf", "leafA"], "mid": ["leafA", "plus"], "top": ["mid", "leafA", "leafB", "plus"],
            "deep": ["top", "mid", "leafA", "leafB", "plus"], "guarded": ["maybe_fail", "recover", "leafA"],
            "failing_parent": ["leafA", "leafB", "maybe_fail"], "pipeline": ["readf", "writef"]}
 
